@@ -299,13 +299,14 @@ def list_sort(inner_sort):
 class Kind:
     """how a z3 term is wrapped into a value: ('int', cls) ('bool') ('real') ('bytes') ('str') ('obj', cls) ('fn')
     ('enum', cls) ('box': any value, kept in a side table) ('seq', inner Kind: a list value)"""
-    __slots__ = ('ty', 'cls', 'inner', 'truthy')
+    __slots__ = ('ty', 'cls', 'inner', 'truthy', 'join')
 
     def __init__(self, ty, cls=None, inner=None):
         self.ty = ty
         self.cls = cls
         self.inner = inner
         self.truthy = None      # custom kinds: fn(term) -> z3 Bool, the truthiness of an element
+        self.join = None        # custom kinds: (prefix function, is-bytes test, bytes accessor) for b''.join over a list of this kind
 
     def sort(self):
         if self.ty == 'seq':
